@@ -5,7 +5,11 @@ Python expression syntax, compiled by the engine's spec evaluator."""
 
 class Behaviour(object):
     def __init__(self, name, ghost=None, requires=(), ensures=None, raises=None, modifies=(), hints=(),
-                 split=(), calls=None, result=None, unfold_depth=1, loops=None, assumes=(), native_build=None, init=None, native=None, sets=None, noreturn=False, effects=None):
+                 split=(), calls=None, result=None, unfold_depth=2, loops=None, assumes=(), native_build=None, init=None, native=None, sets=None, noreturn=False, effects=None, reveal=(), returns_when=(), params=None, clock=False):
+        self.clock = clock                          # the function reads the clock / lets time pass: `now` advances over a call
+        self.params = dict(params or {})            # per-behaviour parameter sorts (override the contract's)
+        self.returns_when = list(returns_when)      # conditions (on the entry state) under which a normal return is possible at all
+        self.reveal = list(reveal)                  # opaque spec functions whose definition this proof needs
         self.effects = effects                      # {'normal': n, 'raise': (lo, hi)}: number of direct Call events per exit
         self.noreturn = noreturn                    # the function never returns normally (always raises)
         self.sets = dict(sets or {})                # heap location -> expression: exact new value on normal exit (reference-valued fields)
@@ -29,7 +33,10 @@ class Behaviour(object):
 
 class Contract(object):
     def __init__(self, target, params=None, behaviours=None, loops=None, inline=False, result=None,
-                 fields=None, locals=None, note="", tier=1, trusted=False, dispatch=None, effect_free=False, **default_behaviour):
+                 fields=None, locals=None, note="", tier=1, trusted=False, dispatch=None, effect_free=False, abstract_calls=None, **default_behaviour):
+        # call expressions (matched on the source text of the callee expression) replaced by a named library model:
+        # {'self._HANDLERS[handler]': 'handler_run', 'logger.debug': 'log'}
+        self.abstract_calls = dict(abstract_calls or {})
         self.effect_free = effect_free              # no ghost event on any exit (proved); call sites then record no event
         self.dispatch = list(dispatch or [])        # [(condition expr | None, behaviour name)]: behaviour used at a call site
         self.target = target                        # "rpyc/core/brine.py::_dump_bytes"
